@@ -286,6 +286,13 @@ func (x *Exec) coerceKeyArg(e Val, want *Sort) *Term {
 		if v.V.Sort == want {
 			return v.V
 		}
+	case *BufVal, *BufView:
+		// a byte buffer assembled piecewise (ids built with make/copy/PutUint64): its abstract content
+		if want == SBytes && x.curState != nil {
+			if bv, ok := v.(*BufVal); ok {
+				return x.bufBytes(x.curState, bv)
+			}
+		}
 	}
 	return nil
 }
